@@ -16,6 +16,22 @@ EXPLANATION = (
     "all-or-nothing claim rests; atomicity and durability of one SQLite commit, and crash points inside it, are trusted, not decided.")
 
 
+
+def check_no_other_transaction_control(ctx, m):
+    """C09.R6: the one commit per operation is the only transaction boundary."""
+    ctx.rule('C09.R6', 'the engine drives the data session with add / delete / query and exactly the commits counted by R2: no handler calls begin, begin_nested (a SAVEPOINT - with the sqlite driver its RELEASE commits when it is the outermost transaction), flush, rollback, execute, merge, expunge, close or any other session method - each of them is, or can become, a second transaction boundary inside one operation, so a crash between the two leaves the operation half applied')
+    OK = {'add', 'add_all', 'commit', 'query', 'delete'}
+    n = 0
+    for name, fn in sorted(m.methods.items()):
+        for x in walk_local(fn):
+            if is_self_attr(x, '_data_session') and isinstance(x.ctx, ast.Load):
+                p = getattr(x, '_parent', None)
+                if isinstance(p, ast.Attribute) and p.value is x:
+                    n += 1
+                    ctx.check(p.attr in OK or p.attr in ('new', 'dirty', 'deleted'), 'C09.R6', 'KmipEngine.%s|session.%s' % (name, p.attr), m.site(x, fn), 'session.%s' % p.attr,
+                              'session.%s is used in %s: besides the single commit of the operation this opens, flushes or ends a transaction (or may do so with the sqlite driver), so the operation is no longer applied in one piece' % (p.attr, name))
+    ctx.count('data_session_member_uses', n, 15)
+
 def run(ctx):
     src = ctx.src
     ai = EngineAI.shared(src)
@@ -179,6 +195,7 @@ def run(ctx):
     ctx.analysed['file_removal_calls'] = n_fs
     if n_fs == 0:
         ctx.ok('C09.R5', 'kmip/**', 'no file removal / rename / truncate call in the package')
+    check_no_other_transaction_control(ctx, m)
     ctx.not_decided += ['process death between SQL statements inside one commit (SQLite journal)', 'durability of an acknowledged commit (fsync behaviour of SQLite)',
                         'that a store left by a crash can be opened and listed']
     ctx.assumptions += ['one Session.commit() is one atomic, durable SQLite transaction covering all rows of joined-table objects',
